@@ -30,6 +30,11 @@ pub struct Point {
     pub choice: u64,
 }
 
+thread_local! {
+    /// number of non-trivial choice points answered so far in the current execution (read by observers)
+    pub static POINT_COUNT: std::cell::Cell<usize> = const { std::cell::Cell::new(0) };
+}
+
 #[derive(Default)]
 struct ChState {
     prefix: Vec<u64>,
@@ -45,6 +50,7 @@ struct ChState {
 pub fn run_with_choices<R>(prefix: &[u64], ignore_sites: &[&'static str], f: impl FnOnce() -> R) -> (R, Vec<Point>, Option<String>) {
     let st = Rc::new(RefCell::new(ChState { prefix: prefix.to_vec(), points: vec![], ignore: ignore_sites.to_vec(), diverged: None }));
     let st2 = st.clone();
+    POINT_COUNT.with(|c| c.set(0));
     verif_hooks::set_chooser(Some(Box::new(move |site, n| {
         let mut s = st2.borrow_mut();
         if n <= 1 || s.ignore.contains(&site) {
@@ -57,6 +63,7 @@ pub fn run_with_choices<R>(prefix: &[u64], ignore_sites: &[&'static str], f: imp
             choice = 0;
         }
         s.points.push(Point { site, arity: n, choice });
+        POINT_COUNT.with(|c| c.set(s.points.len()));
         perm_from_index(n, choice)
     })));
     struct Uninstall;
